@@ -32,6 +32,20 @@ pub struct Flags {
     pub track_len: bool,
     /// model comparison is disabled (safety-only runs)
     pub safety_only: bool,
+    /// names with disputed case mapping: sibling ORDER is not judged against
+    /// the model (only against the independent parser's in-order traversal)
+    pub relaxed_order: bool,
+    /// record a hash of every observable result (cross-configuration equality)
+    pub record_results: bool,
+    /// rule prefixes that belong to this check's property; a divergence with
+    /// another rule is some other property's business: it ends the case
+    /// (counted as out_of_scope) without raising this property's alarm.
+    /// Empty = everything is in scope.
+    pub scope: &'static [&'static str],
+    /// compare the independent parser's dump with the LIVE API dump instead of the model
+    pub imgck_vs_live: bool,
+    /// C02: compare the reopened snapshot with the LIVE API dump instead of the model
+    pub reopen_vs_live: bool,
 }
 
 pub struct World {
@@ -47,11 +61,12 @@ pub struct Ctx<'a> {
     pub stop: bool,
     pub last_imgck_hash: u64,
     pub last_reopen_hash: u64,
+    pub res_hashes: Vec<u64>,
 }
 
 impl<'a> Ctx<'a> {
     pub fn new(flags: &'a Flags, known: &'a BTreeSet<String>) -> Ctx<'a> {
-        Ctx { flags, known, out: Outcome::default(), lens: vec![], stop: false, last_imgck_hash: 0, last_reopen_hash: 0 }
+        Ctx { flags, known, out: Outcome::default(), lens: vec![], stop: false, last_imgck_hash: 0, last_reopen_hash: 0, res_hashes: vec![] }
     }
 
     /// Report a violation.  Returns true if it is a *known finding*.
@@ -65,6 +80,13 @@ impl<'a> Ctx<'a> {
             step,
         };
         let sig = v.sig();
+        if !self.flags.scope.is_empty() && !self.flags.scope.iter().any(|p| rule.starts_with(p)) {
+            *self.out.stats.probes.entry(format!("out_of_scope:{}", rule)).or_insert(0) += 1;
+            if stateful {
+                self.stop = true;
+            }
+            return true;
+        }
         if self.known.contains(&sig) {
             *self.out.stats.known_hits.entry(sig).or_insert(0) += 1;
             if stateful {
@@ -81,6 +103,12 @@ impl<'a> Ctx<'a> {
 
 /// Build the initial world for a case.
 pub fn setup(case: &Case, flags: &Flags) -> Result<World, String> {
+    let mut w = setup_inner(case, flags)?;
+    w.model.relaxed_order = flags.relaxed_order;
+    Ok(w)
+}
+
+fn setup_inner(case: &Case, flags: &Flags) -> Result<World, String> {
     crate::driver::set_clock(crate::ops::T { secs: 1_600_000_000, nanos: 0 });
     match &case.init {
         Init::Empty => {
@@ -188,7 +216,7 @@ pub fn layout_probes(l: &imgck::Layout, stats: &mut Stats) {
 }
 
 /// Independent check of the current image.  Returns false if the run must stop.
-pub fn check_image(w: &World, ctx: &mut Ctx, step: usize, opkind: &str) {
+pub fn check_image(w: &mut World, ctx: &mut Ctx, step: usize, opkind: &str) {
     let img = w.lib.disk.snapshot();
     let h = crate::prng::fnv(&img);
     if h == ctx.last_imgck_hash {
@@ -208,8 +236,28 @@ pub fn check_image(w: &World, ctx: &mut Ctx, step: usize, opkind: &str) {
     }
     if ctx.flags.imgck_dump {
         if let Some(d) = &p.dump {
-            let md = w.model.dump();
             let skip = w.model.dirty_paths();
+            let mut md = if ctx.flags.imgck_vs_live {
+                match w.lib.dump(&skip) {
+                    Ok(mut live) => {
+                        // skipped (dirty) streams: neither side's content is judged
+                        blank(&mut live, &skip);
+                        live
+                    }
+                    Err(r) => {
+                        ctx.report("dump.fails", "dump", format!("after {}: dumping the live file failed: {}", opkind, r.brief()), step, true);
+                        return;
+                    }
+                }
+            } else {
+                w.model.dump()
+            };
+            let mut d = d.clone();
+            if ctx.flags.relaxed_order {
+                sort_dump(&mut md);
+                sort_dump(&mut d);
+            }
+            let d = &d;
             if let Some(diff) = dump::diff_except(d, &md, &skip) {
                 ctx.report("imgck.dump", "image", format!("after {}: image content (independent parser) vs model: {}", opkind, diff), step, true);
             }
@@ -218,15 +266,29 @@ pub fn check_image(w: &World, ctx: &mut Ctx, step: usize, opkind: &str) {
 }
 
 /// C02 boundary oracle: the bytes alone reopen (both modes) to the model state.
-pub fn check_reopen(w: &World, ctx: &mut Ctx, step: usize, opkind: &str) {
+pub fn check_reopen(w: &mut World, ctx: &mut Ctx, step: usize, opkind: &str) {
     let img = w.lib.disk.snapshot();
     let h = crate::prng::fnv(&img);
     if h == ctx.last_reopen_hash {
         return;
     }
     ctx.last_reopen_hash = h;
-    let md = w.model.dump();
     let skip = w.model.dirty_paths();
+    let md = if ctx.flags.reopen_vs_live {
+        match w.lib.dump(&skip) {
+            Ok(d) => d,
+            Err(r) => {
+                let (rule, site) = match &r {
+                    Res::Panic(p) => ("dump.panic".to_string(), normalise_site(p)),
+                    _ => ("dump.fails".to_string(), "dump".to_string()),
+                };
+                ctx.report(&rule, &site, format!("after {}: dumping the live file failed: {}", opkind, r.brief()), step, true);
+                return;
+            }
+        }
+    } else {
+        w.model.dump()
+    };
     for strict in [false, true] {
         ctx.out.stats.boundary_checks += 1;
         let disk = SimDisk::new(img.clone());
@@ -247,10 +309,14 @@ pub fn check_reopen(w: &World, ctx: &mut Ctx, step: usize, opkind: &str) {
                         ctx.report(&format!("reopen.{}-dump-fails", mode), "dump", format!("after {}: reopened snapshot cannot be dumped: {}", opkind, r.brief()), step, true);
                         return;
                     }
-                    Ok(d) => {
+                    Ok(mut d) => {
                         // skipped streams have empty data in d; blank them in the model dump too
                         let mut md2 = md.clone();
                         blank(&mut md2, &skip);
+                        if ctx.flags.relaxed_order {
+                            sort_dump(&mut md2);
+                            sort_dump(&mut d);
+                        }
                         if let Some(diff) = dump::diff_except(&d, &md2, &skip) {
                             ctx.report(&format!("reopen.{}-differs", mode), "dump", format!("after {}: reopened snapshot vs model: {}", opkind, diff), step, true);
                             return;
@@ -285,6 +351,16 @@ fn opkind_class(r: &Res) -> String {
     }
 }
 
+pub fn sort_dump(d: &mut dump::Dump) {
+    fn go(n: &mut dump::Node) {
+        n.children.sort_by(|a, b| a.name.cmp(&b.name));
+        for c in n.children.iter_mut() {
+            go(c);
+        }
+    }
+    go(&mut d.root);
+}
+
 fn blank(d: &mut dump::Dump, skip: &[String]) {
     fn go(n: &mut dump::Node, path: &str, skip: &[String], is_root: bool) {
         let here = if is_root { "/".to_string() } else { format!("{}/{}", path, n.name) };
@@ -311,9 +387,30 @@ pub fn check_api_dump(w: &mut World, ctx: &mut Ctx, step: usize, opkind: &str) {
             };
             ctx.report(&rule, &site, format!("after {}: dumping the live file failed: {}", opkind, r.brief()), step, true);
         }
-        Ok(d) => {
+        Ok(mut d) => {
             let mut md = w.model.dump();
             blank(&mut md, &skip);
+            if ctx.flags.relaxed_order {
+                // listing order must at least agree with the independent parser
+                let p = imgck::check(&w.lib.disk.snapshot());
+                if let Some(pd) = &p.dump {
+                    fn names(n: &dump::Node, out: &mut Vec<String>) {
+                        for c in &n.children {
+                            out.push(c.name.clone());
+                            names(c, out);
+                        }
+                    }
+                    let (mut a, mut b) = (vec![], vec![]);
+                    names(&d.root, &mut a);
+                    names(&pd.root, &mut b);
+                    if a != b {
+                        ctx.report("order.api-vs-image", "dump", format!("after {}: walk order {:?} differs from the in-order traversal of the stored trees {:?}", opkind, a, b), step, true);
+                        return;
+                    }
+                }
+                sort_dump(&mut md);
+                sort_dump(&mut d);
+            }
             if let Some(diff) = dump::diff_except(&d, &md, &skip) {
                 ctx.report("dump.differs", "dump", format!("after {}: live file vs model: {}", opkind, diff), step, true);
             }
@@ -328,9 +425,20 @@ pub fn run_ops(w: &mut World, ops: &[Op], start: usize, ctx: &mut Ctx) {
             break;
         }
         let pre_hash = if ctx.flags.no_effect { w.lib.disk.image_hash() } else { 0 };
+        crate::driver::set_clock(w.model.clock);
         let got = w.lib.exec(op);
         ctx.out.stats.api_calls += 1;
         ctx.out.stats.outcome(op.kind(), res_class(&got));
+        if ctx.flags.record_results {
+            let mut h = crate::prng::Fnv::new();
+            match (&got, op) {
+                // counts of plain read/write/fill_buf are a relation: record only what must be equal
+                (Res::Bytes(_), Op::HRead { .. }) | (Res::Bytes(_), Op::HFillBuf { .. }) | (Res::Num(_), Op::HWrite { .. }) => h.write(b"rel"),
+                (Res::Err(k, _), _) => h.write(format!("{:?}", k).as_bytes()),
+                _ => got.hash_into(&mut h),
+            }
+            ctx.res_hashes.push(h.finish());
+        }
         if let Res::Panic(p) = &got {
             ctx.report("panic", &normalise_site(p), format!("step {} {}: {}", i, op.to_json(), p), i, true);
             break;
